@@ -341,6 +341,8 @@ def main(chk):
     n = 720 if quick else 4800
     tools = job_tools(chk)
     jobs = [{"id": "j%d" % i, "seed": job_seed(chk.seed, "C20", i), "tool": tools[i % len(tools)], "queries": 5 if quick else 8} for i in range(n)]
+    if not quick:
+        jobs += chk.shard(jobs[:150], "asan", 150) + chk.shard([dict(j, queries=2) for j in jobs[150:162]], "valgrind", 12)
     chk.run_jobs(jobs, budget_s=420 if quick else 3000)
     return chk.finish(
         rule="generated repositories (2-7 directories, 6-22 files) x ignore files from the generated subset (literal names, *.ext, dir/, "
